@@ -17,7 +17,7 @@ TARGET = dict(
         dict(name="corrupt", harness="harness/C15_corrupt.c", share=1.0,
              repo=LIBUPIPE + _TS("upipe_ts_decaps.c", "upipe_ts_pes_decaps.c", "upipe_ts_split.c", "upipe_ts_pid_filter.c"), engine=MEMFIX),
     ],
-    quick=dict(cases=8000, budget=12), thorough=dict(cases=60000, budget=150),
+    quick=dict(cases=14000, budget=12), thorough=dict(cases=150000, budget=150),
 )
 META = dict(
     technique="property-based round-trip and differential testing against an independent bit-level TS/PES reference (rapidcheck tapes -> C executors) under ASan",
